@@ -52,8 +52,8 @@ ALPHABET = 'ACDEFGHIKLMNPQRSTVWYU'
 # ------------------------------------------------------------------ sizes
 def sizes(ctx):
     if ctx.quick:
-        return dict(small=70, dense=45, nested=70, allkinds=40, excon=25, circ=30, large=8)
-    return dict(small=500, dense=350, nested=450, allkinds=300, excon=120, circ=200, large=40)
+        return dict(small=70, dense=45, nested=70, allkinds=40, excon=25, circ=30, large=8, adjacent=45)
+    return dict(small=500, dense=350, nested=450, allkinds=300, excon=120, circ=200, large=40, adjacent=400)
 
 # ------------------------------------------------------------------ run configurations
 def flags_of(run):
@@ -371,6 +371,78 @@ def gen_allkinds(rng, i):
     c['stream'] = 'allkinds'
     return c
 
+def adjacent_geometry(rng, gseq, g0):
+    """records (gene start, ref, alt) packed on the bases g0-1 .. g0+3: always an adjacent SNV pair (g0, g0+1), plus
+    two to four of: further alleles on either base, a third adjacent SNV (triple), insertions / deletions anchored on
+    a base that also carries an SNV, MNVs overlapping the SNVs, an SNV directly upstream, one distant SNV"""
+    def snv(g, avoid=()):
+        ref = gseq[g]
+        alts = [c for c in CG.NT if c != ref and (g, ref, c) not in avoid]
+        return (g, ref, rng.choice(alts)) if alts else None
+    def ins(g):
+        return (g, gseq[g], gseq[g] + ''.join(rng.choice(CG.NT) for _ in range(rng.choice([1, 2, 3]))))
+    def dele(g):
+        k = rng.choice([1, 2, 3])
+        return (g, gseq[g:g + 1 + k], gseq[g])
+    def mnv(g, n):
+        ref = gseq[g:g + n]
+        return (g, ref, ''.join(CG._mut_base(rng, c) for c in ref))
+    recs = []
+    def add(r):
+        if r and r not in recs and r[1] and r[1] != r[2]:
+            recs.append(r)
+    add(snv(g0)); add(snv(g0 + 1))
+    extras = [lambda: snv(g0, recs), lambda: snv(g0, recs), lambda: snv(g0 + 1, recs), lambda: snv(g0 + 2),
+              lambda: snv(g0 + 2), lambda: ins(g0), lambda: dele(g0), lambda: ins(g0 + 1), lambda: dele(g0 + 1),
+              lambda: mnv(g0, 2), lambda: mnv(g0 + 1, 2), lambda: mnv(g0, 3), lambda: snv(g0 - 1), lambda: snv(g0 + 3),
+              lambda: snv(g0 + rng.choice([6, 7, 9]))]
+    for f in rng.sample(extras, rng.choice([1, 2, 2, 3, 3, 4])):
+        add(f())
+    return sorted(recs)
+
+def gen_adjacent(rng, i):
+    """nested record sets on DENSE geometries (adjacent SNV pairs / triples, several alleles per base, indels
+    anchored on an SNV base, MNVs overlapping SNVs) under each --max-adjacent-as-mnv value: the full set against
+    the set minus one record.  One GVF file per record id."""
+    for _ in range(200):
+        world = G.gen_world(rng, n_chrom=1, max_genes=2, coding_p=0.85, small=True, sec_p=0.15, nf_p=0.15)
+        cands = [(g, t) for g in world['genes'] for t in g['transcripts'] if G.tx_len(t) >= 60]
+        if not cands:
+            continue
+        gene, tx = rng.choice(cands)
+        L = G.tx_len(tx)
+        lo, hi = (tx['cds'][0] + 3, tx['cds'][1] - 6) if (tx['cds'] and rng.random() < 0.85) else (4, L - 14)
+        if hi <= lo:
+            continue
+        tp = rng.randrange(lo, hi)
+        g0 = G.g2gene(gene, G.tx2g(gene, tx, tp))
+        gseq = G.gene_seq(world, gene)
+        if not (2 <= g0 < len(gseq) - 14) or CG.map_record(gene, tx, g0 - 1, g0 + 5)[0] != 'exonic':
+            continue
+        vs = adjacent_geometry(rng, gseq, g0)
+        rows_by_id = collections.OrderedDict()
+        for gs, ref, alt in vs:
+            for t in gene['transcripts']:
+                if CG.map_record(gene, t, gs, gs + len(ref))[0] != 'outside':
+                    rows_by_id.setdefault(CG.var_id(gs, ref, alt), []).append(
+                        [gene['id'], gs + 1, CG.var_id(gs, ref, alt), ref, alt, t['id'], gene['name']])
+        if len(rows_by_id) >= 3:
+            break
+    ids = list(rows_by_id)
+    c = {'world': world, 'gvf': [r for v in rows_by_id.values() for r in v], 'gene': gene['id'], 'target': tx['id'], 'tag': 'adjacent'}
+    c['files'] = [{'kind': 'var', 'rows': rows_by_id[v]} for v in ids]
+    base = knobs(rng, CG.gen_run(rng, rule='trypsin'), p=0.3)
+    base['k'] = rng.choice([0, 1, 1, 2]); base['min_len'] = rng.choice([4, 5, 6]); base['max_len'] = rng.choice([20, 25, 30])
+    base['extra'] = list(base.get('extra', [])) + ['--max-adjacent-as-mnv', str(rng.choice([0, 1, 2, 2, 2, 2, 2, 3]))]
+    allf = list(range(len(ids)))
+    c['runs'] = [dict(base, use=allf)]
+    c['pairs'] = []
+    for d in rng.sample(allf, min(3, len(allf))):
+        c['runs'].append(dict(base, use=[j for j in allf if j != d]))
+        c['pairs'].append([len(c['runs']) - 1, 0, 'vars'])
+    c['stream'] = 'adjacent'
+    return c
+
 def gen_large(rng, i, quick=True):
     """30-40 records spread over one transcript of a larger world"""
     for _ in range(100):
@@ -436,6 +508,7 @@ def gen_cases(ctx):
     cases += [gen_excon(rng, i) for i in range(n['excon'])]
     cases += [gen_circ(rng, i) for i in range(n['circ'])]
     cases += [gen_large(rng, i, ctx.quick) for i in range(n['large'])]
+    cases += [gen_adjacent(rng, i) for i in range(n.get('adjacent', 0))]
     return cases
 
 # ------------------------------------------------------------------ evaluation (implementation + specification)
@@ -450,12 +523,27 @@ def uses_circ(case, run):
     idx = range(len(case['files'])) if use is None else use
     return any(case['files'][i]['kind'] in ('circ', 'fusion') and case['files'][i]['rows'] for i in idx)
 
+F_MNVCRASH = 'C05-max-adjacent-mnv-crash'
+
+def max_adjacent(run):
+    ex = run.get('extra', [])
+    return int(ex[ex.index('--max-adjacent-as-mnv') + 1]) if '--max-adjacent-as-mnv' in ex else 2
+
+def is_mnv_crash(run, exc):
+    """callVariant aborts inside seqvar.find_mnvs_from_adjacent_variants with --max-adjacent-as-mnv >= 3:
+    KeyError (a record without an adjacent partner leaves no chains of length k-1) or ValueError (the chain is
+    extended with records adjacent to its FIRST member, so two alleles of the next base are merged)"""
+    return (isinstance(exc, dict) and exc.get('__exc__') in ('KeyError', 'ValueError')
+            and 'find_mnvs_from_adjacent_variants' in exc.get('tb', '') and max_adjacent(run) >= 3)
+
 def spec_covered(case, run):
     """the specification Model/Spec.v (+ SpecFlags.v) covers this run: SNV/MNV/INDEL on linear transcripts,
     few enough records for haplotype enumeration"""
     if case.get('stream') == 'large' or uses_circ(case, run):
         return False
     ex = run.get('extra', [])
+    if max_adjacent(run) != 2:
+        return False       # Spec.v fixes the convention of the default value (runs of <= 2 abutting records)
     if run['exc'] != 'None' and any(flags_of(run)):
         return False       # the D14 signatures of cvcheck are stated for the unflagged specification only
     return not (FLAG_ARGS['noncan'] in ex or FLAG_ARGS['bso'] in ex)
@@ -770,10 +858,11 @@ def _judge(ctx, cases, evs, violations, stats):
                 if to and '--timeout-seconds' in run.get('extra', []):
                     stats['timeouts:' + st] += 1
                     continue
-                if CK.is_nola_crash(run, ev.exc):
-                    continue       # C01's finding; the pair is skipped
-                violations.append({'what': 'callVariant aborted with %s (%s) in stream %s' % (ev.exc['__exc__'], ev.exc.get('msg', '')[:120], st),
-                                   'replay_obj': pair_replay(dict(c, runs=[run], pairs=[]), 'crash'), 'no_input': False})
+                v = {'what': 'callVariant aborted with %s (%s) in stream %s' % (ev.exc['__exc__'], ev.exc.get('msg', '')[:120], st),
+                     'replay_obj': pair_replay(dict(c, runs=[run], pairs=[]), 'crash'), 'no_input': False}
+                if is_mnv_crash(run, ev.exc):
+                    v['finding'] = F_MNVCRASH
+                violations.append(v)
                 continue
             # specification bracket of this run (small inputs only)
             if ev.xs:
@@ -1031,7 +1120,7 @@ def search_failing_input(ctx, broken):
     witnesses): look for a concrete pair of runs on which the implementation violates the property"""
     global sizes
     old = sizes
-    sizes = lambda ctx: dict(small=30, dense=20, nested=30, allkinds=10, excon=0, circ=10, large=0)
+    sizes = lambda ctx: dict(small=30, dense=20, nested=30, allkinds=10, excon=0, circ=10, large=0, adjacent=30)
     try:
         res = run(ctx)
     finally:
